@@ -164,6 +164,11 @@ func (ssc *defaultStatefulSetControl) ListRevisions(set *apps.StatefulSet) ([]*k
 		seen[local.Name] = true
 		// revisions controlled by another owner are not ours to number, sync, adopt or trim
 		if ref := metav1.GetControllerOfNoCopy(&local); ref != nil && ref.UID != set.GetUID() {
+			// the history of the built-in StatefulSet this set was upgraded from becomes ours once the garbage
+			// collector has orphaned it; computing revisions before that would record the template a second time
+			if _, marked := local.Labels[helper.UpgradeToAdvancedStatefulSetAnn]; marked && ref.APIVersion == kubeapps.SchemeGroupVersion.String() && ref.Kind == "StatefulSet" && ref.Name == set.Name {
+				return nil, fmt.Errorf("ControllerRevision %s/%s is still controlled by the built-in StatefulSet %s, waiting for it to be orphaned", local.Namespace, local.Name, ref.Name)
+			}
 			continue
 		}
 		// a set that is being deleted adopts nothing, so orphans are not its business either
